@@ -715,14 +715,17 @@ def _is_class_expr_only(value, first) -> bool:
 
 
 def _has_own_namespace_guard(fn, slot, cls_like, first, kind) -> bool:
+    """the slot is read in the class's own namespace somewhere in the
+    function: cls.__dict__.get("slot") / "slot" in cls.__dict__ / vars(cls)["slot"]
+    (possibly bound to a local that the guard then tests)"""
     for n in ast.walk(fn):
-        if isinstance(n, (ast.If, ast.IfExp)):
-            for n3 in ast.walk(n.test):
-                # cls.__dict__.get("slot") / "slot" in cls.__dict__ / vars(cls)
-                if isinstance(n3, ast.Constant) and n3.value == slot:
-                    src = ast.dump(n.test)
-                    if "__dict__" in src or "id='vars'" in src:
-                        return True
+        if isinstance(n, (ast.Call, ast.Compare, ast.Subscript)):
+            has_slot = any(isinstance(x, ast.Constant) and x.value == slot for x in ast.walk(n))
+            if not has_slot:
+                continue
+            src = ast.dump(n)
+            if "attr='__dict__'" in src or "id='vars'" in src:
+                return True
     return False
 
 
